@@ -96,6 +96,29 @@ class Inputs:
             else:
                 self.values[nm] = v.real
 
+    def tensor(self, name, shape, kind="real", **kw):
+        """array as a (symbolic or real float64/complex128) tensor"""
+        a = self.array(name, shape, kind, **kw)
+        if self.mode == "sym":
+            from .torchx import SymTensor
+            return SymTensor(a)
+        import torch
+        return torch.from_numpy(np.ascontiguousarray(a))
+
+    def tscalar(self, x):
+        """0-d tensor from a scalar made by real()/angle()"""
+        if self.mode == "sym":
+            from .torchx import SymTensor
+            return SymTensor(x)
+        import torch
+        return torch.tensor(x, dtype=torch.float64)
+
+    def patch_torch(self, *modules):
+        if self.mode == "sym":
+            from .torchx import patched_torch
+            return patched_torch(*modules)
+        return _Null()
+
     def assume(self, cond):
         if self.mode == "sym":
             self.ctx.assume(cond)
@@ -417,6 +440,8 @@ def _env_for(ctx, assignment):
             x = math.cos(_eval_float(payload[0], env, memo) * float(payload[1]))
         elif kind == "sin_unit":
             x = math.sin(_eval_float(payload[0], env, memo) * float(payload[1]))
+        elif kind == "atan2":
+            x = math.atan2(_eval_float(payload[0], env, memo), _eval_float(payload[1], env, memo))
         else:  # pragma: no cover
             raise Unsupported(kind)
         env[sym.get_id()] = x
@@ -479,3 +504,43 @@ def _guided(ctx, term):
     val = bool(_eval_float(term, env, {}))
     ctx.decisions.append((term, val))
     return val
+
+
+# ----------------------------------------------------------------------------------------- parallel driver
+_WORK = []
+
+
+def _worker(i):
+    pid, tier, name, claim, opts = _WORK[i]
+    from ..common import Check
+    c = Check(pid, tier, "")
+    t = time.time()
+    decide(c, name, claim, **opts)
+    return dict(name=name, obligations=c.obligations, witnesses=c.witnesses, violations=c.violations, errors=c.errors,
+                validated=c.validated, samples=c.samples, wall=time.time() - t)
+
+
+def decide_many(check, cases, jobs=None, **common_opts):
+    """cases: list of (name, claim, opts); each case is decided in its own forked process"""
+    import multiprocessing as mp
+    import os
+    jobs = jobs or int(os.environ.get("VERIF_JOBS", str(os.cpu_count() or 4)))
+    work = [(check.pid, check.tier, name, claim, dict(common_opts, **opts)) for name, claim, opts in cases]
+    global _WORK
+    _WORK = work                     # inherited by the forked workers (claims are closures, not picklable)
+    ctxm = mp.get_context("fork")
+    with ctxm.Pool(min(jobs, max(1, len(work)))) as pool:
+        for r in pool.imap_unordered(_worker, range(len(work))):
+            for o in r["obligations"]:
+                check.obligations.append(o)
+                check.paths += o["paths"]
+                check.queries += o["queries"]
+                check.solver_s += o["solver_s"]
+            check.witnesses += r["witnesses"]
+            check.violations += r["violations"]
+            check.errors += r["errors"]
+            check.validated += r["validated"]
+            for s in r["samples"]:
+                if len(check.samples) < 12:
+                    check.samples.append(s)
+    check.engines.add("symnum + z3 " + z3.get_version_string())
